@@ -11,6 +11,9 @@ for d in sorted((VERIF / "seeded").iterdir()):
         continue
     meta = json.loads((d / "meta.json").read_text())
     t = subprocess.run([str(VERIF / "tools/try_seed.py"), str(d / "patch.diff")], capture_output=True, text=True)
+    if "PATCH-DOES-NOT-APPLY" in (t.stdout + t.stderr):
+        print(f"| `{d.name}` | PATCH DOES NOT APPLY to the current tree — rebase it |")
+        continue
     det = re.findall(r"^(C\d+): exit 1 (\[.*?\])", t.stdout, re.M)
     err = re.findall(r"^(C\d+): exit 2", t.stdout, re.M)
     meta["detected_by_now"] = [{"check": c, "rules": r} for c, r in det]
